@@ -472,7 +472,7 @@ def cfg_lit(span):
     return (f"(cfg {b(d['power_mode'])} {listlit([qlit(float(x)) for x in d['delta_power_range_db']])} "
             f"{qlit(float(d['span_loss_ref']))} {qlit(float(d['power_slope']))} {qlit(float(d['voa_margin']))} "
             f"{qlit(float(d['voa_step']))} {qlit(float(d['target_extended_gain']))} "
-            f"{qlit(float(d['max_fiber_lineic_loss_for_raman']))} {qlit(float(d['padding']))} {qlit(float(d['EOL']))} "
+            f"{qlit(float(d['max_fiber_lineic_loss_for_raman']) * 1e-3)} {qlit(float(d['padding']))} {qlit(float(d['EOL']))} "
             f"{qlit(float(d['con_in']))} {qlit(float(d['con_out']))})")
 
 
@@ -755,27 +755,29 @@ def oracle_static(ctx, c, built, o, p0, pref_ch, pref_total, desc, case):
     pm = span['power_mode']
     eq = built['equipment']
     p = p0
-    seg_loss = 0.0
     amps = {a['uid']: a for a in o['amps']}
     fibs = {f['uid']: f for f in o['fibs']}
     snaps = {s['uid']: s for s in o['snap']}
-    # padded span with a user att_in (open finding)
-    padded_user = any(s['t'] == 'fiber' and s['att_in'] > 0 and fibs[s['uid']]['att_in'] > s['att_in'] + TOL
-                      for s in o['snap'])
+    o['_excess'] = {}
+    span_excess = 0.0          # cached design loss minus real loss of the span just crossed
+    span_user_att = 0.0        # operator att_in of the first fibre of that span, if the span was padded
     for idx, n in enumerate(o['nodes']):
         if isinstance(n, E.Fiber):
             f = fibs[n.uid]
             p -= f['loss']
-            # a cached design loss must be the real loss of its span
             if f['dsl'] is not None:
-                j = idx
-                real = 0.0
+                j, real, first = idx, 0.0, None
                 while j >= 0 and isinstance(o['nodes'][j], (E.Fiber, E.Fused)):
                     real += float(o['nodes'][j].loss)
+                    first = o['nodes'][j]
                     j -= 1
-                if abs(real - f['dsl']) > 1e-9:
+                span_excess = f['dsl'] - real
+                span_user_att = 0.0
+                if isinstance(first, E.Fiber) and fibs[first.uid]['att_in'] > snaps[first.uid]['att_in'] + TOL:
+                    span_user_att = snaps[first.uid]['att_in']            # padded, and the operator had given att_in
+                if abs(span_excess) > 1e-9:
                     ctx.violation('dsl_not_span_loss', f"{desc}: design_span_loss of {n.uid} is {f['dsl']}, the span loses {real}",
-                                  case, padded_user_att_in=padded_user)
+                                  case, padded_user_att_in=span_user_att > 0 and abs(span_excess - span_user_att) <= 1e-9)
         elif isinstance(n, E.Fused):
             p -= float(n.loss)
         elif isinstance(n, E.Edfa):
@@ -784,16 +786,22 @@ def oracle_static(ctx, c, built, o, p0, pref_ch, pref_total, desc, case):
             p = p - a['in_voa'] + a['gain']
             lib = eq['Edfa'][a['variety']]
             step = round(span['voa_step'], 1)
-            overshoot = (s['out_voa'] is None and pm and bool(lib.out_voa_auto)
-                         and span['voa_margin'] < (step / 2 if step >= 0.01 else 0.005))
-            if abs(p - (pref_ch + a['_delta_p'])) > 1e-9:
+            half = step / 2 if step >= 0.01 else 0.005
+            auto_voa = s['out_voa'] is None and pm and bool(lib.out_voa_auto)
+            dev = p - (pref_ch + a['_delta_p'])
+            above = pref_total + a['_delta_p'] - float(lib.p_max)
+            is_overshoot = auto_voa and span['voa_margin'] < half and 0 < above <= half - span['voa_margin'] + 1e-9 \
+                and a['out_voa'] > 0
+            o['_excess'][n.uid] = {'att': span_user_att if span_user_att > 0 and abs(dev - span_user_att) <= 1e-9 else 0.0,
+                                   'voa': above if is_overshoot else 0.0}
+            if abs(dev) > 1e-9:
                 ctx.violation('budget_not_closed', f"{desc}: reference channel leaves {n.uid} at {p} dBm, "
                               f"reference power + offset = {pref_ch + a['_delta_p']}", case,
-                              padded_user_att_in=padded_user, voa_overshoot=False)
+                              padded_user_att_in=o['_excess'][n.uid]['att'] > 0, voa_overshoot=False)
                 p = pref_ch + a['_delta_p']                 # resynchronise: report each amplifier once
-            if pref_total + a['_delta_p'] > float(lib.p_max) + 1e-9:
+            if above > 1e-9:
                 ctx.violation('design_power_above_pmax', f"{desc}: {n.uid} total design power {pref_total + a['_delta_p']} "
-                              f"> p_max {lib.p_max}", case, voa_overshoot=overshoot)
+                              f"> p_max {lib.p_max}", case, voa_overshoot=is_overshoot)
             # operator values kept unless saturating
             if pm and s['delta_p'] is not None and s['out_voa'] is not None:
                 if pref_total + s['delta_p'] <= float(lib.p_max) + 1e-12 and s['variety'] and \
@@ -803,20 +811,18 @@ def oracle_static(ctx, c, built, o, p0, pref_ch, pref_total, desc, case):
             if (not pm) and s['gain'] is not None and s['variety']:
                 pout = pref_total + a['_delta_p'] + (s['gain'] - a['gain'])    # what the user gain would give
                 if pout <= float(lib.p_max) - 1e-9 and abs(a['gain'] - s['gain']) > 1e-9:
+                    # the specific open finding: the test was made before the input VOA
+                    in_voa_case = a['in_voa'] > 0 and pout + a['in_voa'] > float(lib.p_max) - 1e-9 and \
+                        abs((s['gain'] - a['gain']) - (pout + a['in_voa'] - float(lib.p_max))) <= 1e-9
                     ctx.violation('user_gain_reduced_without_saturation',
                                   f"{desc}: {n.uid} gain {s['gain']} -> {a['gain']} although the output "
-                                  f"{pout} dBm would not exceed p_max {lib.p_max}", case, in_voa=bool(a['in_voa']))
+                                  f"{pout} dBm would not exceed p_max {lib.p_max}", case, in_voa=in_voa_case)
             p -= a['out_voa']
+            span_excess = span_user_att = 0.0
 
 
 def oracle_propagation(ctx, c, built, o, p0, pref_ch, rec, desc, case):
-    span = c['span']
     amps = {a['uid']: a for a in o['amps']}
-    snaps = {s['uid']: s for s in o['snap']}
-    fibs = {f['uid']: f for f in o['fibs']}
-    padded_user = any(s['t'] == 'fiber' and s['att_in'] > 0 and fibs[s['uid']]['att_in'] > s['att_in'] + TOL
-                      for s in o['snap'])
-    eq = built['equipment']
     first = True
     for r in rec:
         if r['kind'] == 'Roadm':
@@ -834,15 +840,17 @@ def oracle_propagation(ctx, c, built, o, p0, pref_ch, rec, desc, case):
         exp = pref_ch + a['_delta_p'] - a['out_voa']
         lo = exp - r['noise_db'] - SIG_TOL
         if r['sig_min'] < lo or r['sig_max'] > exp + SIG_TOL:
-            lib = eq['Edfa'][a['variety']]
-            s = snaps[r['uid']]
-            step = round(span['voa_step'], 1)
-            overshoot = (s['out_voa'] is None and span['power_mode'] and bool(lib.out_voa_auto)
-                         and span['voa_margin'] < (step / 2 if step >= 0.01 else 0.005)
-                         and r['sig_max'] <= exp + SIG_TOL)
+            ex = o.get('_excess', {}).get(r['uid'], {'att': 0.0, 'voa': 0.0})
+            # the two open findings predict the deviation: + operator att_in, resp. - (power above p_max), up to noise
+            # (when the excess gain drives the amplifier into its p_max clamp, less than att_in comes out)
+            by_att = bool(ex['att'] > 0 and r['sig_max'] - exp <= ex['att'] + SIG_TOL and
+                          (ex['att'] - r['noise_db'] - SIG_TOL <= r['sig_min'] - exp or
+                           (r.get('clamped', 0) > 0 and r['sig_min'] - exp > 0)))
+            by_voa = bool(ex['voa'] > 0 and -ex['voa'] - r['noise_db'] - SIG_TOL <= r['sig_min'] - exp and
+                          r['sig_max'] - exp <= SIG_TOL)
             ctx.violation('budget_not_closed', f"{desc}: propagated signal leaves {r['uid']} at {r['sig_min']}..{r['sig_max']} dBm, "
                           f"reference power + offset - VOA = {exp} (noise share {r['noise_db']} dB)", case,
-                          padded_user_att_in=padded_user, voa_overshoot=overshoot, stage='propagation')
+                          padded_user_att_in=by_att, voa_overshoot=by_voa, stage='propagation')
             return
         if r.get('clamped', 0) > 0:
             ctx.count('amps_clamped_by_noise')
